@@ -59,6 +59,8 @@ def run(ctx):
         wantp = sum(c * (1j ** o[1]) * O.expect_spec(act, (o[0], 0)) for o, c in terms)
         try:
             gotp = complex(st.expect(impl.poly(terms)))
+            ctx.q('expectpoly', 'expectpoly %d %s %s' % (r, H.erows_ops(rows), E.epoly([O.to_g(t[0][0]) for t in terms], [t[0][1] for t in terms], [t[1] for t in terms])),
+                  gotp, E.dcx)
             if abs(gotp - wantp) > 1e-9:
                 ctx.fail('StabilizerState.expect(PauliPolynomial)', 'got %s, coefficient-weighted sum of Tr(rho sigma_k) is %s' % (gotp, wantp),
                          dict(rows=rows, r=r, terms=terms))
